@@ -4,7 +4,7 @@ all give the same set of (atom, truth) assumptions per path."""
 from . import mir
 
 
-def paths(b, T, atom_of, succ=None, limit=4000, start=0, stop=(), call_value=None):
+def paths(b, T, atom_of, succ=None, limit=4000, start=0, stop=(), call_value=None, init_env=None):
     """yields (tuple of blocks, [(atom name, truth)]) for every feasible path from `start` to a return — or, with `stop`, also
     (blocks, assumptions, stop block) for paths that reach a block of `stop` (e.g. one iteration of a loop: start = header, stop = {header}).
     call_value(t) may give the abstract value of a call result: ('opt', tag) makes `discr` of it the atom "<tag>.some"."""
@@ -61,7 +61,7 @@ def paths(b, T, atom_of, succ=None, limit=4000, start=0, stop=(), call_value=Non
                 env.pop(t['dest']['local'], None)
         return env
     n = 0
-    stack = [(start, (start,), [], {})]
+    stack = [(start, (start,), [], dict(init_env or {}))]      # init_env: abstract values of locals at `start` (e.g. a flag computed by a loop, as an atom)
     first = True
     while stack:
         bb, path, asm, env = stack.pop()
